@@ -17,6 +17,7 @@ import (
 	"github.com/grailbio/base/limiter"
 	"github.com/grailbio/base/log"
 	"github.com/grailbio/bigslice/frame"
+	"github.com/grailbio/bigslice/internal/simhook"
 	"github.com/grailbio/bigslice/metrics"
 	"github.com/grailbio/bigslice/sliceio"
 )
@@ -50,6 +51,7 @@ func (l *localExecutor) Start(sess *Session) (shutdown func()) {
 }
 
 func (l *localExecutor) Run(task *Task) {
+	simhook.Yield("local.run", func() string { return task.Name.String() })
 	ctx := backgroundcontext.Get()
 	n := 1
 	if task.Pragma.Exclusive() {
